@@ -38,6 +38,21 @@ def snapshot(root):
     return out
 
 
+def age(root, paths, rstate):
+    """set every modification time below root (and root's) to three hours ago, then touch the same random third of the entries"""
+    import random
+    r = random.Random()
+    r.setstate(rstate)
+    old = __import__("time").time() - 3 * 3600
+    allp = [root] + [os.path.join(root, b"/".join(p)) for p in paths]
+    fresh = [x for x in allp[1:] if r.random() < 0.35]
+    for x in allp:
+        os.utime(x, (old, old), follow_symlinks=False)
+    for x in fresh:
+        if not os.path.islink(x) and not os.path.isdir(x):
+            os.utime(x, None)
+
+
 def model_tree(spec, ids, prefix=()):
     """Delete.node encoding; ids: path tuple -> id"""
     if spec[0] == "d":
@@ -63,7 +78,7 @@ def run(ctx):
             forest.add(b"w%d" % k, spec)        # the twin
             paths = [p for p, s in fstree.all_paths(spec) if p]
             names = sorted({p[-1] for p in paths})
-            kind = rng.choice(["names", "names", "names", "typef", "all", "all1"])
+            kind = rng.choice(["names", "names", "names", "typef", "all", "all1", "links2", "mmin", "mmin"])
             if kind == "names":
                 chosen = rng.sample(names, min(len(names), rng.choice([1, 2, 3]))) if names else [b"zz"]
                 expr = ["("] + sum([["-name", c.decode()] + (["-o"] if i < len(chosen) - 1 else []) for i, c in enumerate(chosen)], []) + [")"]
@@ -74,9 +89,20 @@ def run(ctx):
             elif kind == "all":
                 expr = ["-true"]
                 match = lambda p, s: True
-            else:
+            elif kind == "all1":
                 expr = ["-mindepth", "1"]
                 match = lambda p, s: bool(p)
+            elif kind == "links2":
+                # a test on the directory's own status, which removing its children changes: the verdict is the one on the untouched tree
+                expr = ["-links", "2"]
+                match = None
+            else:
+                # everything is three hours old except a few files; "modified in the last 5 minutes" must not come to include the
+                # directories whose contents the run itself removes
+                expr = ["-mmin", "-5"]
+                match = None
+                for tree in (nm, b"w%d" % k):
+                    age(os.path.join(forest.dir, tree), paths, rng.getstate())
             cases.append((nm, b"w%d" % k, spec, expr, match, kind, rng.choice([[], [], [b"-P"], [b"-H"], [b"-H"]])))
         before_out = snapshot(os.path.join(forest.dir, b"outside"))
         il, il2 = [], []
@@ -86,10 +112,15 @@ def run(ctx):
             il2.append("find - %s %s" % (fw.hexs(forest.dir), xc.hexlist([twin, b"-depth", b"-sorted"] + [e.encode() for e in expr] + [b"-print0"])))
         cases = [c[:6] for c in cases]
         before = {nm: snapshot(os.path.join(forest.dir, nm)) for nm, *_ in cases}
+        impl2 = xc.run_impl(il2)          # the twins first: "-depth EXPR -print on an identical tree" defines the matched set
         impl = xc.run_impl(il)
-        impl2 = xc.run_impl(il2)
         ml, idmaps = [], []
-        for nm, twin, spec, expr, match, kind in cases:
+        for ci, (nm, twin, spec, expr, match, kind) in enumerate(cases):
+            if match is None:
+                tw = wc.decode_find(impl2[ci])[1].split(b"\0")[:-1]
+                rel = {tuple(x[len(twin) + 1:].split(b"/")) if x != twin else () for x in tw}
+                match = lambda p, s, rel=rel: tuple(p) in rel
+                cases[ci] = (nm, twin, spec, expr, match, kind)
             ids = {}
             t = model_tree(spec, ids)
             matched = ["r"] if match((), spec) else []
